@@ -158,6 +158,8 @@ def run(ctx):
     SP.prove_span_balance(ctx)
     import props.C07_span_tag as ST_
     ST_.prove_span_tag(ctx)
+    import props.C07_write as WS
+    WS.prove_write_skeleton(ctx)
     import props.C12 as L12
     L12.prove_alignment(ctx)          # (an alignment attribute that is written has a value: a None value is a bare attribute name)
     ctx.bounded("documents", "caption sets read from sample documents of six formats and API-built sets (texts, style values, "
